@@ -511,8 +511,22 @@ pub fn run_client_grid(cfg: &ScenCfg, out: &mut RunOut) {
     let addr: SocketAddr = "10.0.0.7:802".parse().unwrap();
     let states: super::client::StateLog = Arc::new(Mutex::new(Vec::new()));
     let comps: super::client::Completions = Arc::new(Mutex::new(Vec::new()));
+    // the name (or address) that is dialed is not the name that is verified: a third of the runs reach the server
+    // through a host name that is neither the expected subject name nor - except on purpose - in the certificate
+    let dialed: Option<&str> = match choose(6) {
+        0 => Some("plc.example"),
+        1 => Some("other.example"), // the name the wrong-name certificate is valid for
+        _ => None,
+    };
+    let host = match dialed {
+        Some(name) => {
+            net::set_dns(name, Some(addr.ip()));
+            HostAddr::dns(name.to_string(), addr.port())
+        }
+        None => HostAddr::ip(addr.ip(), addr.port()),
+    };
     let (channel, task) = create_tls_client_task_with_options(
-        HostAddr::ip(addr.ip(), addr.port()),
+        host,
         doubling_retry_strategy(Duration::from_secs(30), Duration::from_secs(30)),
         tls,
         Some(Box::new(super::client::Listen { log: states.clone(), delay_ns: 0 })),
@@ -590,12 +604,13 @@ pub fn run_client_grid(cfg: &ScenCfg, out: &mut RunOut) {
     let connected = st.iter().any(|(_, s)| *s == crate::model::client::MState::Connected);
     let comp = comps.lock().unwrap().clone();
     let desc = format!(
-        "client min={} mode={} peer_versions={} server_cert={:?} fault={}",
+        "client min={} mode={} peer_versions={} server_cert={:?} fault={} dialed={}",
         if min13 { "1.3" } else { "1.2" },
         if self_signed { "self-signed" } else { "authority" },
         ["1.2", "1.3", "1.2+1.3"][peer_v as usize],
         pc,
-        fault
+        fault,
+        dialed.unwrap_or("the IP address")
     );
     let want_req = mbap_frame(0, 1, &[3, 0, 0, 0, 1]);
     if fault != 0 {
